@@ -234,6 +234,10 @@ package terminal
 
 //@ -- the text the escapes decoded so far stand for: the UTF-8 encodings of their code points, in order (C08)
 //@ ghost GhostUnq string
+//@ -- why the scan of a double-quoted string stopped: a byte that starts no well-formed UTF-8 sequence, or an escape
+//@ -- strconv.UnquoteChar rejects (anything else ends the literal only at a quote, a line break or the end of input)
+//@ ghost GhostBadUTF8 bool
+//@ ghost GhostBadEscape bool
 //@ -- the custom reader handed to Reader.Readf: returns the unquoted bytes and how many input bytes they stand for;
 //@ -- the bytes are the literal prefix followed by the code points of the escapes ([codepoints], loop invariant)
 //@ func unquoteString(b []byte) (v []byte, n int)
@@ -244,10 +248,16 @@ package terminal
 //@ loop 1 (i int)
 //@   invariant 0 <= i && i <= len(b)
 //@   ghost_entry GhostUnq = ""
+//@   ghost_entry GhostBadUTF8 = false
+//@   ghost_entry GhostBadEscape = false
+//@   ghost_at call:DecodeRuneInString#1 GhostBadUTF8 = lastres[rune](0) == 0xFFFD && lastres[int](1) == 1
+//@   ghost_at call:UnquoteChar#1 GhostBadEscape = lastres[error](3) != nil
+//@   ensures  [stops;C08] v != nil && n < len(b) && b[n] != '"' && b[n] != '\r' && b[n] != '\n' ==> GhostBadUTF8 || GhostBadEscape
 //@   ghost_at call:UnquoteChar#1 when lastres[error](3) == nil :: GhostUnq = GhostUnq + string(lastres[rune](0))
 //@ loop 2 (str string, res []byte, i int)
 //@   invariant 0 <= i && i <= len(b) && len(str) <= len(b) - i && len(res) <= len(b) - len(str) && fresh(res)
 //@   invariant [codepoints;C08] strof(res) == strof(b[0:i]) + GhostUnq
+//@   invariant [scanning;C08] !GhostBadUTF8 && !GhostBadEscape
 
 //@ closure String$1(ctx *parsley.Context, lrc data.IntMap, pos parsley.Pos) (n parsley.Node, cp data.IntSet, err parsley.Error)
 //@   captures (allowBackquote bool, notFoundErr parsley.NotFoundError, schema interface{})
